@@ -118,6 +118,8 @@ def exc_class(e: BaseException) -> str:
         return "struct"
     if isinstance(e, UnicodeError):
         return "unicode"
+    if isinstance(e, OSError):
+        return "os"
     if isinstance(e, ValueError):
         return "value"
     if isinstance(e, (IndexError, KeyError)):
